@@ -138,7 +138,7 @@ func zzAnyMessage() any {
 			hs.YourIP = string(vrt.Bytes("yourip", 4))
 		}
 		vrt.Assume(hs.MetadataSize >= 0 && hs.RequestQueue >= 0) // the decoder clamps negatives
-		vrt.Assume(hs.MetadataSize <= 3*16384)                    // bound: at most 3 metadata blocks
+		vrt.Assume(hs.MetadataSize <= 3*16384)                   // bound: at most 3 metadata blocks
 		return hs
 	case 15:
 		return peerprotocol.ExtensionMetadataMessage{Type: vrt.Choice("metadata_msg_type", 4), Piece: vrt.U32("metadata_piece"), TotalSize: vrt.Int("total_size"), Data: vrt.Bytes("metadata_data", vrt.Choice("metadata_data_len", 3))}
